@@ -148,6 +148,23 @@ func famInputs(thorough bool, maxCodec, maxImage int, have func(pkg string) int)
 		small = fam.P1Payloads(3)
 	}
 	each(tools, small)
+	// long structured payloads (output > 32 KiB, matches at every distance up to the window size): the inputs on which
+	// history rings and dictionaries matter; these are not "<= 64 bytes" but are few
+	for _, pat := range []string{"words", "cycle251", "far"} {
+		for _, n := range []int{65537, 100000} {
+			pl := fam.Payload{Desc: fmt.Sprintf("P2:%s:%d", pat, n), Class: "P2:" + pat, Data: fam.P2(pat, n)}
+			for _, st := range []fam.Setting{{Family: "flate", Level: 1}, {Family: "flate", Level: 5}, {Family: "flate", Level: 9}, {Family: "zlib", Level: 5}, {Family: "gzip", Level: 9}, {Family: "lzw", LitWidth: 8}} {
+				st := st
+				cs, err := enc.Encode(&st, &pl)
+				if err != nil {
+					continue
+				}
+				for _, c := range cs {
+					add(c.Pkg, c.Quirks, c.Desc, c.Data)
+				}
+			}
+		}
+	}
 	// images
 	for _, kind := range fam.PNGKinds {
 		for _, sz := range [][2]int{{1, 1}, {2, 1}, {3, 2}, {5, 3}} {
